@@ -16,6 +16,11 @@
 -/
 import Gzx.Proofs.BitSource
 import Gzx.Proofs.OneDPost
+import Gzx.Proofs.TotalQR
+import Gzx.Proofs.TotalDM
+import Gzx.Proofs.TotalQRFit
+import Gzx.Proofs.TotalDMTable
+import Gzx.Proofs.TotalOneD
 namespace Gzx.Properties.C06
 open Gzx Gzx.BitSource Gzx.OneDPost
 
@@ -271,5 +276,196 @@ theorem code93_post_total (s : List Nat) (h : ∀ c ∈ s, c ∈ c93Alphabet) :
         · rw [he]; simp
 
 example : c93Post [97] = .error .notFound := by decide
+
+/-! ## QR DecodedBitStreamParser (model `Gzx.QRDec.parse`, tied to the code by the `c01 parse` and
+     `c06 qrparse` correspondence lines) -/
+
+section QRParse
+open Gzx.QRDec Gzx.ECI Gzx.Proofs.TotalQR
+
+/-- C06 for `DecodedBitStreamParser_Decode`, every mode (numeric, alphanumeric, byte, Kanji, Hanzi, ECI,
+    FNC1, structured append, terminator, unknown mode nibbles), for EVERY byte string (truncated
+    anywhere), every version number (also outside 1..40), every charset hint and every ECI registry:
+    a parse result or FormatException — never a panic, never an exhausted loop budget. -/
+theorem qr_parse_total (reg : Registry) (bytes : List Nat) (ver : Nat) (hint : Hint) :
+    (∃ p, parse reg bytes ver hint = .ok p) ∨ parse reg bytes ver hint = .error .format :=
+  parse_fmt reg bytes ver hint
+
+/-- in particular: no panic and no fuel exhaustion -/
+theorem qr_parse_no_panic (reg : Registry) (bytes : List Nat) (ver : Nat) (hint : Hint) :
+    (∀ w, parse reg bytes ver hint ≠ .error (.panic w)) ∧ parse reg bytes ver hint ≠ .error .fuel := by
+  rcases qr_parse_total reg bytes ver hint with ⟨p, h⟩ | h <;> rw [h] <;> exact ⟨fun w => by simp, by simp⟩
+
+-- non-vacuity: a numeric segment "01", a truncated byte segment, an unknown mode nibble, ECI 900
+example : (parse [] [0x10, 0x08, 0x08] 1 .none).map (·.segs) = .ok [.raw [48, 49]] := by decide
+example : parse [] [0x40, 0x31] 1 .none = .error .format := by decide
+example : parse [] [0x60] 1 .none = .error .format := by decide
+example : parse [] [0x78, 0x38, 0x40] 1 .none = .error .format := by decide
+
+end QRParse
+
+/-! ## QR Decoder.Decode on arbitrary matrices (model `Gzx.QRDec.decode`, tied to the code by the
+     `c01 decode` / `c01 cw` and `c06 qrdecode` correspondence lines) -/
+
+section QRDecode
+open Gzx.QRDec Gzx.ECI Gzx.Proofs.TotalQR Gzx.Proofs.TotalQRDec Gzx.Proofs.TotalQRFit
+
+/-- C06 for `qrcode/decoder.Decoder.Decode`: NewBitMatrixParser, ReadVersion, ReadFormatInformation,
+    ReadCodewords, DataBlock_GetDataBlocks, correctErrors, DecodedBitStreamParser_Decode and the mirrored
+    second attempt, on EVERY square matrix (any dimension ≥ 0, any cells), every charset hint:
+    a result, FormatException or ChecksumException — never a panic, never an exhausted loop budget.
+    Hypotheses (all decidable facts about DATA, discharged for the tables regenerated from /repo by
+    `Obligations.C06.tables_ok` on every run):
+      * `wfVersions T.versions` — VERSIONS has 40 entries numbered 1..40 with consistent block lists;
+      * `T.versions.all cwFitsB` — every version has room for ≤ totalCodewords codewords (+ < 8 bits)
+        outside its function patterns;
+    and of the Reed-Solomon block decoder only that it never panics (`rs_decode_total` of C04 for the
+    verified RS model on in-range words).  The format / version BCH look-up tables, the mask table and
+    the ECI registry may be ARBITRARY. -/
+theorem qr_decode_total (T : Tables) (hT : wfVersions T.versions = true) (hfit : T.versions.all cwFitsB = true)
+    (rs : List Nat → Nat → Res (List Nat)) (hrs : ∀ cw n w, rs cw n ≠ .error (.panic w))
+    (hint : Hint) (m : Matrix) :
+    (∃ d, decode T rs hint m = .ok d) ∨ decode T rs hint m = .error .format ∨
+      decode T rs hint m = .error .checksum :=
+  decode_spec T hT (cwFits_of_check T hfit) rs hrs hint m
+
+theorem qr_decode_no_panic (T : Tables) (hT : wfVersions T.versions = true) (hfit : T.versions.all cwFitsB = true)
+    (rs : List Nat → Nat → Res (List Nat)) (hrs : ∀ cw n w, rs cw n ≠ .error (.panic w))
+    (hint : Hint) (m : Matrix) :
+    (∀ w, decode T rs hint m ≠ .error (.panic w)) ∧ decode T rs hint m ≠ .error .fuel := by
+  rcases qr_decode_total T hT hfit rs hrs hint m with ⟨d, h⟩ | h | h <;> rw [h] <;>
+    exact ⟨fun w => by simp, by simp⟩
+
+/-- the table hypotheses are what keeps the decoder inside its slices: with a VERSIONS table of 39 entries
+    a 177x177 matrix that announces version 40 indexes past the table (model and code alike) -/
+example : getVersionForNumber [] 40 = .error (.panic "VERSIONS[versionNumber-1]") := by decide
+/-- every matrix whose dimension is not 17+4k, k ≥ 1, is a FormatException whatever the tables are
+    (0x0, 1x1, 20x20, 22x22 …) -/
+example (T : Tables) (rs : List Nat → Nat → Res (List Nat)) (hint : Hint) (bit : Nat → Nat → Bool) :
+    decode T rs hint ⟨22, bit⟩ = .error .format := by simp [decode, newParser, wrapF]
+example (T : Tables) (rs : List Nat → Nat → Res (List Nat)) (hint : Hint) (bit : Nat → Nat → Bool) :
+    decode T rs hint ⟨0, bit⟩ = .error .format := by simp [decode, newParser, wrapF]
+
+end QRDecode
+
+/-! ## Data Matrix DecodedBitStreamParser (model `Gzx.DMHighLevel.decodeText`, tied to the code by the
+     `c02 dm-dec` and `c06 dmparse` correspondence lines) -/
+
+section DMParse
+open Gzx.DMHighLevel Gzx.Proofs.TotalQR Gzx.Proofs.TotalDM
+
+/-- C06 for `DecodedBitStreamParser_decode`: for EVERY codeword list (every byte value, streams truncated
+    inside a C40/Text/X12 pair, an EDIFACT triple or a Base-256 header, Base-256 lengths pointing past
+    the end, an upper shift in last position, the pair (0,0) whose third value is −1) and every
+    character tables `T`: a text or FormatException — never a panic. -/
+theorem dm_parse_total (T : Tables) (cw : List Nat) :
+    (∃ t, decodeText T cw = .ok t) ∨ decodeText T cw = .error .format :=
+  decodeText_fmt T cw
+
+/-- the same for text plus symbology modifier -/
+theorem dm_parse_full_total (T : Tables) (cw : List Nat) :
+    (∃ t, decodeFull T cw = .ok t) ∨ decodeFull T cw = .error .format :=
+  decodeFull_fmt T cw
+
+theorem dm_parse_no_panic (T : Tables) (cw : List Nat) : ∀ w, decodeText T cw ≠ .error (.panic w) := by
+  intro w
+  rcases dm_parse_total T cw with ⟨t, h⟩ | h <;> rw [h] <;> simp
+
+/-- the boundary the proof had to argue about: a C40/Text value of −1 (pair (0,0)) reaches the decoder
+    only in shift state 0 or 1, where it is not used as a table index; in shift state 2 or 3 it would be
+    an index panic (model and code alike) -/
+example : cValueCore refTables true (-1) ⟨2, false⟩ = .error (.panic "index out of range (negative)") := by decide
+example : parseTwoBytes 0 0 = (0, 0, -1) := by decide
+example : decodeText refTables [239, 0, 2, 0, 0, 66] = .ok [0, 33, 255, 65] := by decide
+example : decodeText refTables [230, 0, 0] = .ok [0] := by decide
+example : decodeText refTables [231, 100, 1, 2] = .error .format := by decide   -- Base-256 length past the end
+example : decodeText refTables [235] = .ok [] := by decide                        -- upper shift in last position
+example : decodeText refTables [240, 1, 2] = .ok [0, 1] := by decide              -- EDIFACT tail
+example : decodeText refTables [238, 255, 255] = .error .format := by decide
+example : decodeText refTables [66, 67] = .ok [65, 66] := by decide
+
+end DMParse
+
+/-! ## Data Matrix matrix chain: NewBitMatrixParser → readCodewords → DataBlocks_getDataBlocks
+     (model `Gzx.DMDec`, tied to the code by the `c08` / `c05` / `c06 dmmatrix` correspondence lines) -/
+
+section DMDecode
+open Gzx.DMDec Gzx.Proofs.TotalDMDec
+
+/-- C06 for the Data Matrix `BitMatrixParser` on EVERY bit matrix (any width and height, any cells): a matrix
+    whose dimensions are not in the version table (odd, < 8, > 144, width/height mismatch, 10x12 …) is a
+    FormatException; otherwise the version of those dimensions is found, its data regions are copied without
+    leaving the symbol, `readCodewords` (corner cases, Utah shapes, both sweeps) never leaves the mapping
+    matrix and returns exactly `totalCodewords` codewords, and `DataBlocks_getDataBlocks` de-interleaves
+    them without leaving a block.  Never a panic.
+    `tbl` is any version table whose entries satisfy the decidable facts `VersionOK` / `dbOK`
+    (`dm_versions_ok`: the decoder's table does). -/
+theorem dm_decode_total (tbl : List Version) (hT : ∀ v ∈ tbl, VersionOK v ∧ dbOK v = true)
+    (g : BitGrid) (hg : g.bits.size = g.width * g.height) :
+    newBitMatrixParser tbl g = .error .format ∨
+    ∃ v m cws blocks, newBitMatrixParser tbl g = .ok (v, m) ∧ v ∈ tbl ∧
+      v.symbolSizeRows = g.height ∧ v.symbolSizeColumns = g.width ∧
+      readCodewords v m = .ok cws ∧ cws.length = v.totalCodewords ∧ getDataBlocks cws v = .ok blocks := by
+  rcases newBitMatrixParser_spec tbl (fun v hv => (hT v hv).1) g hg with h | ⟨v, m, h, hm, hr, hc, hmw, hmh, hmc⟩
+  · exact Or.inl h
+  · have hread := (hT v hm).1.read
+    rw [← hmh, ← hmc] at hread
+    obtain ⟨cws, hcw, hlen⟩ := readCodewords_spec v m hmw hread
+    obtain ⟨blocks, hb⟩ := getDataBlocks_spec v (hT v hm).2 cws hlen
+    exact Or.inr ⟨v, m, cws, blocks, h, hm, hr, hc, hcw, hlen, hb⟩
+
+/-- the decoder's own table (ISO/IEC 16022 Table 7 + DMRE; `Obligations.C08.gen_versions_eq` ties it to /repo)
+    satisfies the hypotheses -/
+theorem dm_versions_ok : ∀ v ∈ versions, VersionOK v ∧ dbOK v = true :=
+  fun v hv => ⟨versions_ok v hv, List.all_eq_true.mp versions_db v hv⟩
+
+/-- C06 for the Data Matrix matrix chain with the decoder's table, unconditionally -/
+theorem dm_decode_total_versions (g : BitGrid) (hg : g.bits.size = g.width * g.height) :
+    newBitMatrixParser versions g = .error .format ∨
+    ∃ v m cws blocks, newBitMatrixParser versions g = .ok (v, m) ∧ v ∈ versions ∧
+      readCodewords v m = .ok cws ∧ cws.length = v.totalCodewords ∧ getDataBlocks cws v = .ok blocks := by
+  rcases dm_decode_total versions dm_versions_ok g hg with h | ⟨v, m, cws, blocks, h1, h2, _, _, h3, h4, h5⟩
+  · exact Or.inl h
+  · exact Or.inr ⟨v, m, cws, blocks, h1, h2, h3, h4, h5⟩
+
+-- non-vacuity: a 10x10 matrix reaches the success path; 10x12 and 9x9 are FormatExceptions; the
+-- representation invariant is needed (a BitGrid with too few cells indexes out of range)
+example : (newBitMatrixParser versions ⟨10, 10, Array.replicate 100 true⟩).map (·.1.versionNumber) = .ok 1 := by
+  decide +kernel
+example : (newBitMatrixParser versions ⟨12, 10, Array.replicate 120 false⟩).map (·.1.versionNumber) =
+    .error .format := by decide +kernel
+example : (newBitMatrixParser versions ⟨9, 9, Array.replicate 81 false⟩).map (·.1.versionNumber) =
+    .error .format := by decide +kernel
+example : (newBitMatrixParser versions ⟨10, 10, #[]⟩).map (·.1.versionNumber) =
+    .error (.panic "index out of range: bits") := by decide +kernel
+
+end DMDecode
+
+/-! ## UPC/EAN row decoder (model Gzx/Model/OneD.lean, tied to oned/upcean_reader.go by the `c03` suite): first layer -/
+
+section OneDRows
+open Gzx.OneD Gzx.Proofs.TotalOneD
+
+/-- C06 for `upceanReader_findGuardPatternWithCounters` on EVERY row (any length ≥ 0, any pixels), from any
+    offset, white-first or not, for every guard pattern of at least three runs: a range or
+    NotFoundException — the counter shift `counters[2:]` and the variance computation never leave their
+    slices.  (PARTIAL for the row decoders as a whole: `decodeRow` — start-guard search with its quiet-zone
+    loop, `decodeDigit`, the middle/end guards, check digit — is NOT proved total here; it is covered by the
+    C03 correspondence and the C06 row oracle.) -/
+theorem upcean_findGuardPattern_total_partial (row : List Bool) (rowOffset : Nat) (whiteFirst : Bool)
+    (pattern : List Nat) (h3 : 3 ≤ pattern.length) :
+    (∃ r, findGuardPattern row rowOffset whiteFirst pattern = .ok r) ∨
+      findGuardPattern row rowOffset whiteFirst pattern = .error .notFound :=
+  findGuardPattern_nf row rowOffset whiteFirst pattern h3
+
+/-- the guard patterns of the reference tables (start/end, middle, UPC-E end) have 3, 5 and 6 runs -/
+example : 3 ≤ refTables.startEnd.length ∧ 3 ≤ refTables.middle.length ∧ 3 ≤ refTables.upceMiddleEnd.length := by decide
+/-- the hypothesis is needed: a two-run pattern makes `counters[2:]` leave the slice -/
+example : findGuardPattern [true, true, true, true, false, true, false] 0 false [1, 1] =
+    .error (.panic "slice bounds out of range") := by decide
+example : findGuardPattern [false, true, false, true, false] 0 false [1, 1, 1] = .ok (1, 4) := by decide
+example : findGuardPattern [] 7 true [1, 1, 1] = .error .notFound := by decide
+
+end OneDRows
 
 end Gzx.Properties.C06
